@@ -5,7 +5,7 @@ from .. import coregen
 ID = "C04"
 SUITES = ["core"]
 LEAN_MODULES = ["VpnCloud.Proofs.C04"]
-THEOREMS = []
+THEOREMS = ["VpnCloud.Proofs.C04." + n for n in ("increment_val", "increment_wf", "encrypt_spec", "send_strictly_increasing", "seal_log_nodup", "stays_in_half", "halves_disjoint", "reconstruct_iff", "beyond_56_bits_rejected", "rotate_fresh")]
 BATCH = 100
 SEARCH_BUDGET_S = 300
 EXPECTED_CLASSES = ["seal:d", "deliver:ok", "deliver:err", "tick:ok"]
